@@ -43,6 +43,9 @@ Proof.
   unfold finalize_commit. rewrite Q1, Z.eqb_refl, Q2. cbn [negb orb step_eqb step_rank Z.eqb].
   rewrite Q3, Q4, Hmaj, Q6. cbn [has_header pt_header]. rewrite psh_eqb_refl. cbn [negb].
   rewrite Q5. cbn [hashes_to]. rewrite Hb, N.eqb_refl. cbn [negb]. rewrite Hv. cbn [negb].
+  replace (pt_complete pp') with true
+    by (unfold pt_complete, pp'; cbn [pt_have pt_header length]; rewrite Htot; reflexivity).
+  cbn [negb].
   unfold seq, emit. rewrite Q7.
   destruct (update_to_next_height E s1) as [s2 o2]. cbn [snd app]. left. reflexivity.
 Qed.
